@@ -376,7 +376,7 @@ async def _run_history(
                 classes["diverged-elsewhere"] += 1
                 return None, info
             continue
-        if kind != "rx":
+        if kind not in ("rx", "rx_after_idle"):
             raise ValueError(f"unknown op {op!r}")
 
         line = op[1]
@@ -392,7 +392,14 @@ async def _run_history(
             transport.on_write = on_write
         if "before_rx" in hooks:
             hooks["before_rx"](rec, gateway, transport, model)
-        receive = listener.next(line) if listener is not None else env.rx(gateway, line)
+        if kind == "rx_after_idle":
+            # the line arrives after a quiet spell in which the application's wait for a message timed out (op[2] times)
+            if listener is not None:
+                await listener.close()
+            receive = env.rx_after_idle(gateway, line, int(op[2]) if len(op) > 2 else 1)
+            classes["rx-after-idle"] += 1
+        else:
+            receive = listener.next(line) if listener is not None else env.rx(gateway, line)
         if case.get("tasks"):
             receive = asyncio.ensure_future(receive)  # every message handled in a task of its own (nothing may live in the task's context)
         if case.get("rx_timeout"):
@@ -776,6 +783,19 @@ TOUR_EVENTS = (
     [["send", [5, 1, 1, 0, 2, "1"], True], ["send", [5, 255, 3, 0, 13, ""], True], ["rx", "5;255;3;0;22;1\n"], ["rx", "5;255;3;0;32;1\n"]],
     [["rx", "9;1;1;0;0;1\n"], ["send", [9, 255, 3, 0, 13, ""], True], ["send", [9, 255, 3, 0, 18, ""], True], ["rx", "9;1;1;0;0;2\n"]],
     [["rx", "4;9;1;0;0;1\n"], ["send", [4, 255, 3, 0, 13, ""], True], ["send", [4, 1, 1, 0, 0, "x"], True], ["rx", "4;9;1;0;0;2\n"]],
+    # a quiet network: the application's wait for a message times out, it listens again, then traffic resumes
+    [["rx_after_idle", "4;255;0;0;17;2.1.0\n", 1], ["rx", "4;3;0;0;6;c\n"], ["rx_after_idle", "4;3;1;0;0;5\n", 2], ["rx", "4;3;2;0;0;\n"], ["rx_after_idle", "9;1;1;0;0;1\n", 1], ["rx", "4;255;3;0;0;9\n"]],
+    [["rx_after_idle", "0;255;3;0;2;2.2.0\n", 1], ["rx_after_idle", "0;255;3;0;14;\n", 1], ["rx", "4;255;3;0;32;5\n"]],
+    # a command whose text starts with white space, parked and released: the line written is the line a direct send writes
+    # (trailing white space is outside the payload domain: the line codec and the MQTT transport strip it)
+    [["send", [5, 1, 1, 0, 47, "  padded"], True], ["send", [4, 1, 1, 0, 47, " \tpadded"], True], ["rx", "5;255;3;0;22;1\n"], ["rx", "5;255;3;0;32;1\n"]],
+    # an unknown node is asked to present itself, does, and is asked again when it reports for a child it did not present (same request line twice)
+    [["rx", "9;1;1;0;0;1\n"], ["rx", "9;255;0;0;17;2.0\n"], ["rx", "9;1;1;0;0;2\n"], ["rx", "9;1;0;0;6;c\n"], ["rx", "9;2;1;0;0;3\n"]],
+    # ids are asked for in three sessions of the same gateway object
+    [["rx", "255;255;3;0;3;\n"], ["session"], ["rx", "255;255;3;0;3;\n"], ["session"], ["rx", "255;255;3;0;3;\n"], ["session"], ["rx", "255;255;3;0;3;\n"]],
+    # the same report twice with another value in between, texts that are no version numbers
+    [["rx", "4;255;3;0;12;1.0-beta\n"], ["rx", "4;255;3;0;12;rev B\n"], ["rx", "4;255;3;0;12;1.0-beta\n"], ["rx", "4;255;3;0;11;a\n"], ["rx", "4;255;3;0;11;b\n"]],
+    [["rx", "4;255;0;0;17;rev B\n"], ["rx", "4;255;0;0;17;1.0-beta\n"], ["rx", "4;255;3;0;0;x\n"], ["rx", "4;255;3;0;0;12\n"]],
     # hours and days pass on the process clock between the send and the wake
     [["send", [5, 1, 1, 0, 2, "1"], True], ["tick", 4000], ["rx", "5;255;3;0;22;1\n"], ["rx", "5;255;3;0;32;1\n"]],
     [["send", [5, 1, 1, 0, 2, "1"], True], ["tick", 86400 * 3], ["rx", "5;9;1;0;0;1\n"], ["tick", 86400 * 40], ["rx", "5;255;3;0;22;1\n"], ["rx", "5;255;3;0;32;1\n"], ["rx", "5;9;1;0;0;2\n"]],
